@@ -1651,6 +1651,11 @@ func ExistExpr(query *Query, current Map, expr *sqlparser.ExistsExpr, opts ...Ex
 		if holder := strings.SplitN(q.table, ".", 2)[0]; len(q.alias) == 0 && len(q.table) > 0 && holder != query.alias {
 			delete(merged, holder)
 		}
+		// the outer row also answers to the name of its own table
+		// (customers.credit), whatever the nested row hides
+		if _, taken := merged[query.table]; !taken && len(query.alias) == 0 && plainWord.MatchString(query.table) && query.table != strings.SplitN(q.table, ".", 2)[0] {
+			merged[query.table] = current
+		}
 		// (under an alias the nested row's columns are one level down)
 		if inner, ok := item[q.alias].(Map); ok && len(q.alias) > 0 {
 			for key := range inner {
